@@ -172,6 +172,10 @@ MAP_sample = Contract(
     })
 
 CONTRACTS += [rvdata_phase, MAP_sample]
+# the diagnostics read sample['P']: the period column is whatever was assigned to it last (contract stated in c17.py)
+from . import c17 as _C17S   # noqa: E402
+from .chain import clone as _clone_s   # noqa: E402
+CONTRACTS += [_clone_s(_c, lib=_C17S.LIB, hooks=_C17S.HOOKS, home="c17") for _c in _C17S.setitem]
 ASSUMPTIONS = ["numpy: sort (non-decreasing rearrangement), max/min/argmax, concatenate, linspace, histogram bin semantics",
                "astropy: Time - Time is a TimeDelta in days; Quantity % 1.0 converts to dimensionless first; Time.jd = mjd + 2400000.5",
                "JokerSamples.__getitem__(int) returns that member row (decided in C17)"]
